@@ -37,11 +37,31 @@ def split_blocks(lines):
 def run_batch(scenarios):
     """run scenarios on the real half-lock, then replay each observed schedule on the model.
     returns list of (scenario, impl_lines, model_lines, schedule, status)"""
-    text = "\n---\n".join("\n".join(s) for s in scenarios) + "\n---\n"
-    rc, out, err = core.run_harness("halflock", text, timeout=900)
-    if rc != 0:
-        raise core.Broken("halflock-harness", "exit %d: %s" % (rc, err[-500:]))
-    iblocks = split_blocks(out)
+    iblocks = []
+    crashes = 0
+    todo = list(scenarios)
+    while todo:
+        text = "\n---\n".join("\n".join(s) for s in todo) + "\n---\n"
+        rc, out, err = core.run_harness("halflock", text, timeout=300)
+        abandoned = bool(out) and out[-1].strip() == "ABANDONED"
+        if rc != 0:
+            # the process died inside a scenario (e.g. the library's own `abort()`): the blocks
+            # printed so far are complete (flushed one by one); the next scenario is the fatal one
+            done = [b for b in split_blocks(out)]
+            if out and out[-1].strip() != "---":
+                done = done[:-1]
+            crashes += 1
+            if crashes > 40:
+                raise core.Broken("halflock-harness", "exit %d in more than 40 scenarios: %s" % (rc, err[-300:]))
+            iblocks += done + [["SCHEDULE", "END crash exit=%d %s" % (rc, " ".join(err.split())[-160:])]]
+            todo = todo[len(done) + 1:]
+            continue
+        got = split_blocks(out[:-1] if abandoned else out)
+        if not got:
+            raise core.Broken("halflock-harness", "no output for %d scenarios" % len(todo))
+        iblocks += got
+        # a scenario that did not finish ends its process; the rest is run in a fresh one
+        todo = todo[len(got):] if abandoned else []
     if len(iblocks) != len(scenarios):
         raise core.Broken("halflock-harness", "%d blocks for %d scenarios" % (len(iblocks), len(scenarios)))
     dtext = []
